@@ -16,18 +16,20 @@ Inductive case :=
 | KConsts (t f : list elt)
 (* include( *w ) and exclude( *w ) probed on (attribute, exact class of the value) pairs *)
 | KFilter (w : list witem) (probes : list (attribute * nat)) (seen : list (bool * bool))
-(* cmp_using(...) with behaviours for the supplied functions; a.__op__(b) for the six ops *)
-| KCmp (c : cfg) (bs : behs) (a b : nat * cval) (seen : option (list tri)).
+(* cmp_using(...) with behaviours for the supplied functions; a.__op__(b) for the six ops:
+   result (or exception) and the log of the calls made to the supplied functions *)
+| KCmp (c : cfg) (bs : behs) (a b : nat * cval) (seen : option (list (tri * list (cop * cval * cval)))).
 
 (** Short name used in the case literals. *)
 Definition A_ := Build_attribute.
+Definition C_ := Build_cval.
 
 Inductive obs :=
 | OConv (r : list res) (n : nat)
 | OToBool (r : tb_res)
 | OConsts (t f : list elt)
 | OFilter (l : list (bool * bool))
-| OCmp (r : option (list tri)).
+| OCmp (r : option (list (tri * list (cop * cval * cval)))).
 
 (** Repeated invocation of the same object; an exception ends one invocation,
     not the sequence. *)
@@ -164,10 +166,48 @@ Proof.
 Qed.
 
 Definition tri_eqb (a b : tri) : bool :=
-  match a, b with TT, TT | FF, FF | NI, NI => true | _, _ => false end.
+  match a, b with TT, TT | FF, FF | NI, NI | EX, EX => true | _, _ => false end.
+
+Definition cop_eqb (a b : cop) : bool :=
+  match a, b with
+  | OEq, OEq | ONe, ONe | OLt, OLt | OLe, OLe | OGt, OGt | OGe, OGe => true
+  | _, _ => false
+  end.
+
+Lemma cop_eqb_spec a b : cop_eqb a b = true <-> a = b.
+Proof. destruct a, b; cbn; split; intros H; try reflexivity; try discriminate. Qed.
+
+Definition cval_eqb (a b : cval) : bool :=
+  (cv_cls a =? cv_cls b) && Z.eqb (cv_rank a) (cv_rank b).
+
+Lemma cval_eqb_spec a b : cval_eqb a b = true <-> a = b.
+Proof.
+  destruct a as [c r], b as [c' r']. unfold cval_eqb; cbn. rewrite andb_true_iff, Nat.eqb_eq, Z.eqb_eq.
+  split; [intros [-> ->]; reflexivity | intros H; inversion H; auto].
+Qed.
+
+Definition entry_eqb (a b : cop * cval * cval) : bool :=
+  cop_eqb (fst (fst a)) (fst (fst b)) && cval_eqb (snd (fst a)) (snd (fst b)) && cval_eqb (snd a) (snd b).
+
+Lemma entry_eqb_spec a b : entry_eqb a b = true <-> a = b.
+Proof.
+  destruct a as [[o x] y], b as [[o' x'] y']. unfold entry_eqb; cbn.
+  rewrite !andb_true_iff, cop_eqb_spec, !cval_eqb_spec.
+  split; [intros [[-> ->] ->]; reflexivity | intros H; inversion H; auto].
+Qed.
 
 Lemma tri_eqb_spec a b : tri_eqb a b = true <-> a = b.
 Proof. destruct a, b; cbn; split; intros H; try reflexivity; try discriminate. Qed.
+
+Definition ret_eqb (a b : tri * list (cop * cval * cval)) : bool :=
+  tri_eqb (fst a) (fst b) && list_eqb entry_eqb (snd a) (snd b).
+
+Lemma ret_eqb_spec a b : ret_eqb a b = true <-> a = b.
+Proof.
+  destruct a as [r t], b as [r' t']. unfold ret_eqb; cbn.
+  rewrite andb_true_iff, tri_eqb_spec, (list_eqb_spec entry_eqb entry_eqb_spec).
+  split; [intros [-> ->]; reflexivity | intros H; inversion H; auto].
+Qed.
 
 Lemma option_eqb_spec {A} (eqb : A -> A -> bool)
   (Heq : forall x y, eqb x y = true <-> x = y) (a b : option A) :
@@ -196,7 +236,7 @@ Definition obs_eqb (a b : obs) : bool :=
   | OToBool r, OToBool r' => tb_res_eqb r r'
   | OConsts t f, OConsts t' f' => list_eqb elt_eqb t t' && list_eqb elt_eqb f f'
   | OFilter l, OFilter l' => list_eqb bb_eqb l l'
-  | OCmp r, OCmp r' => option_eqb (list_eqb tri_eqb) r r'
+  | OCmp r, OCmp r' => option_eqb (list_eqb ret_eqb) r r'
   | _, _ => false
   end.
 
@@ -215,8 +255,8 @@ Proof.
     split; now apply (list_eqb_spec elt_eqb elt_eqb_spec).
   - apply (list_eqb_spec bb_eqb bb_eqb_spec) in H. now subst.
   - inversion H. now apply (list_eqb_spec bb_eqb bb_eqb_spec).
-  - apply (option_eqb_spec _ (list_eqb_spec tri_eqb tri_eqb_spec)) in H. now subst.
-  - inversion H. now apply (option_eqb_spec _ (list_eqb_spec tri_eqb tri_eqb_spec)).
+  - apply (option_eqb_spec _ (list_eqb_spec ret_eqb ret_eqb_spec)) in H. now subst.
+  - inversion H. now apply (option_eqb_spec _ (list_eqb_spec ret_eqb ret_eqb_spec)).
 Qed.
 
 Definition check_case (c : case) : bool := obs_eqb (model_of c) (seen_of c).
